@@ -13,12 +13,17 @@ This harness ties the model to /repo's loaders on every run:
      Python struct, no amoco) extracts from the same bytes; compared: the object list of the memory
      zone (address, raw bytes / symbol bytes, endianness), its cache, the program counter, the bytes of
      every segment's page-rounded extent read back through `mmap.read`, and the fetch window
-     `mmap.read(a, maxlen)[0]` at sampled addresses.  PE, Mach-O, Intel-HEX, S-record and raw inputs
-     likewise (synthesised + samples).
+     handed to the disassembler by `read_instruction` (observed with a recording `cpu.disassemble`) at sampled
+     addresses.  PE, Mach-O, Intel-HEX, S-record and raw inputs likewise (synthesised + samples), plus
+     `RawExec.relocate`.  A few ELF cases run with conf.System.aslr set.
   O  the independent reader computes the mapping the file declares (file bytes, zero fill, slots,
      entry point) and judges what the real memory returns whenever the image satisfies the theorem's
      hypothesis (evaluated independently in Python and by the model's decidable `LoadableOK`).
   K  `Zone.check` (⇒ ZoneWF) on the model zone; the real zone equals it object for object.
+  R  the independent reader's PT_LOAD table is cross-checked against `readelf -lW` (samples + synthesised files).
+A disagreement between code and model on an image outside the theorem's hypothesis, where the code behaves
+exactly like the model of the *unrepaired* code (`fix: none`), is attributed to the defects for which the oracle
+reports failing inputs in the same run (and reported on its own when the run has none).
 `python c15.py replay <file>` re-runs a replay file.
 """
 import sys, os, json, glob
@@ -222,7 +227,7 @@ class Runner(object):
         return ok
 
     # -- ELF ---------------------------------------------------------------------------------------------
-    def elf(self, data, ps, tag, meta=None, path=None):
+    def elf(self, data, ps, tag, meta=None, path=None, aslr=False):
         ck, drv = self.ck, self.drv
         self.n += 1
         e = O.elf_read(data)
@@ -241,8 +246,13 @@ class Runner(object):
         except Exception:
             ck.count("elf.unmodelled.bad-symbol-index")
             return
+        if aslr and loader == "linux32/sparc":
+            aslr = False                  # that loader asks for cpu.esp under aslr and fails over to the bare-metal loader
+        if aslr:
+            ck.count("elf.aslr")
+            case["aslr"] = True
         try:
-            L = R.load(path or data, ps)
+            L = R.load(path or data, ps, aslr=aslr)
         except Exception as ex:
             self.broken("load_program-raised:elf", case, repr(ex), None, "load_program raised")
             return
@@ -266,7 +276,7 @@ class Runner(object):
             fetch += [[a, ml], [max(0, a - 2), ml]]
         arm = loader == "linux32/arm"
         req = {"op": "load.elf", "fix": "repaired",
-               "cfg": {"ps": ps, "ptr": ptr, "top": top, "aslr": False, "bare": False, "thumb": arm},
+               "cfg": {"ps": ps, "ptr": ptr, "top": top, "aslr": aslr, "bare": False, "thumb": arm},
                "file": data.hex(), "phdrs": [[p["type"], p["offset"], p["vaddr"], p["filesz"], p["memsz"]] for p in e.phdrs],
                "entry": e.entry, "relocs": [[a, names.id(nm)] for a, nm in rel], "ranges": ranges, "fetch": fetch}
         model = drv.ask(req)
@@ -275,7 +285,7 @@ class Runner(object):
             return
         ck.count("elf.loaded" if L is not None else "elf.rejected")
         base = top - (top & m)
-        stack = (base - 2 * ps, base)
+        stack = None if aslr else (base - 2 * ps, base)
         if model["task"] is None and e.machine in (243, 2):
             # load_program falls back to the bare-metal ELF loader of the machine (baremetal/riscv.py, leon2.py):
             # page size 4096, stack in a zone of its own, no symbol binding
@@ -517,17 +527,23 @@ class Runner(object):
             except Exception as ex:
                 robj, rpc = repr(ex), None
             ck.count("relocate")
-            if not isinstance(m2, dict) or robj != m2["task"]["zone"] or L.cache() != m2["task"]["cache"] or rpc != m2["task"]["pc"]:
-                self.broken("relocate:" + fmt, dict(case, relocate=v), [rpc, short(robj)],
-                            [m2["task"]["pc"], short(m2["task"]["zone"])] if isinstance(m2, dict) else m2,
-                            "correspondence RawExec.relocate ~ Amoco.Loader.relocate")
-            elif recs:
+            # oracle: the records moved by v - (lowest record address), pc = v
+            judged = False
+            if recs and not isinstance(robj, str):
                 lo2 = min(a for a, b in recs)
                 exp = O.Image(O.records_facts([(a - lo2 + v, b) for a, b in recs])).expected_later_wins(v - 1, min(hi - lo + 2, RANGE_CAP))
                 bad = O.judge(exp, R.unchunk(L.chunks(v - 1, min(hi - lo + 2, RANGE_CAP), names)), names)
                 if bad is not None or rpc != v % (1 << 32):
-                    self.violation(fmt, "relocate", "raw", "after relocate(%#x): %s" % (v, short(bad) if bad else "pc = %s" % rpc),
+                    judged = True
+                    self.violation(fmt, "relocate", "raw", "after relocate(%#x) of records starting at %#x: %s"
+                                   % (v, lo2, ("byte at %#x reads %s, expected %s" % (v - 1 + bad[0], short(bad[3], 40), short(bad[2], 40)))
+                                      if bad else "pc = %s" % rpc),
                                    dict(case, relocate=v), short(bad), None, None, "Amoco.Loader.Props.relocate_image")
+            if not judged and (not isinstance(m2, dict) or robj != m2["task"]["zone"] or L.cache() != m2["task"]["cache"]
+                               or rpc != m2["task"]["pc"]):
+                self.broken("relocate:" + fmt, dict(case, relocate=v), [rpc, short(robj)],
+                            [m2["task"]["pc"], short(m2["task"]["zone"])] if isinstance(m2, dict) else m2,
+                            "correspondence RawExec.relocate ~ Amoco.Loader.relocate")
         overl = any(a1 < a2 + len(b2) and a2 < a1 + len(b1) for i, (a1, b1) in enumerate(recs) for (a2, b2) in recs[:i])
         ck.case((fmt, tag), nontrivial=overl or len(recs) > 1)
         if self.n % 41 == 1:
@@ -700,7 +716,7 @@ def main(tier):
         r = rng("C15/elf/%d" % n)
         g.r = r
         data, meta = g.image()
-        run.elf(data, meta["ps"], "gen:%d" % n, meta=meta)
+        run.elf(data, meta["ps"], "gen:%d" % n, meta=meta, aslr=r.random() < 0.06)
         if len(ck.violations) >= 6:
             break
     for n in range(80 if quick else 1500):
@@ -779,7 +795,7 @@ def replay(path):
         data, p = bytes.fromhex(f), None
     fmt = case["format"]
     if fmt == "elf":
-        run.elf(data, case["ps"], "replay", meta=case.get("meta"), path=p)
+        run.elf(data, case["ps"], "replay", meta=case.get("meta"), path=p, aslr=bool(case.get("aslr")))
     elif fmt == "pe":
         run.pe(data, "replay", path=p)
     elif fmt == "macho":
